@@ -18,6 +18,7 @@ RULE = (
     "dispatched) has a strictly greater compound priority, compound priority = own + distinct descendants in the "
     "full DAG computed by the harness; ties accept any maximal node. non-trivial = >= 1 dispatch decision with >= 2 "
     "ready nodes of different compound priority."
+    " Round 8-10 additions: reconfigurations with an unusable last entry / unusable max_concurrency (read-back oracle); environment axes (non-main calling thread, debug logging, warnings as errors)."
 )
 ASSUMPTIONS = [
     "completions happen only inside the scheduler's wait calls (controller), so 'finished' and 'observed finished' coincide at every decision",
